@@ -237,8 +237,23 @@ pub enum Kind {
 #[derive(Clone, Debug)]
 pub struct Scan {
     pub size: usize,
-    pub present_before: Vec<bool>,
-    pub present_after: Vec<bool>,
+    /// offsets at which each pattern was found in the slot before / after the drop
+    pub before: Vec<Vec<usize>>,
+    pub after: Vec<Vec<usize>>,
+}
+impl Scan {
+    /// The pattern was observable in the live value
+    pub fn observed(&self, i: usize) -> bool {
+        !self.before[i].is_empty()
+    }
+    /// Every place that held the pattern in the live value still holds it after the drop. (A value
+    /// moved bitwise carries its padding / inactive-union bytes along, and those may contain a stale
+    /// copy of a secret from a dead stack frame; such a copy is not a buffer the library holds. The
+    /// buffer the library does hold is always among the `before` places, so correct code wipes at
+    /// least that one.)
+    pub fn survived(&self, i: usize) -> bool {
+        self.observed(i) && self.before[i].iter().all(|o| self.after[i].contains(o))
+    }
 }
 
 pub trait Sender {
@@ -302,11 +317,13 @@ pub fn scan_drop<T>(v: T, pats: &[Vec<u8>]) -> Res<Scan> {
     let before = read(p);
     guard(|| unsafe { std::ptr::drop_in_place(slot.as_mut_ptr()) })?;
     let after = read(p);
-    Ok(Scan {
-        size: n,
-        present_before: pats.iter().map(|q| find(&before, q)).collect(),
-        present_after: pats.iter().map(|q| find(&after, q)).collect(),
-    })
+    let locate = |hay: &[u8], q: &Vec<u8>| -> Vec<usize> {
+        if q.is_empty() || hay.len() < q.len() {
+            return vec![];
+        }
+        (0..hay.len() - q.len() + 1).filter(|i| &hay[*i..*i + q.len()] == &q[..]).collect()
+    };
+    Ok(Scan { size: n, before: pats.iter().map(|q| locate(&before, q)).collect(), after: pats.iter().map(|q| locate(&after, q)).collect() })
 }
 
 pub trait AeadInfo: Aead {
@@ -357,7 +374,7 @@ impl KemInfo for DhP521HkdfSha512 {
     const MID: KemId = KemId::P521;
 }
 
-pub struct S<A, K, M>(PhantomData<fn() -> (A, K, M)>);
+pub struct S<A, K, M>(pub PhantomData<fn() -> (A, K, M)>);
 
 struct SCtx<A: Aead, K: Kdf, M: Kem>(AeadCtxS<A, K, M>);
 struct RCtx<A: Aead, K: Kdf, M: Kem>(AeadCtxR<A, K, M>);
@@ -617,34 +634,35 @@ impl<A: AeadInfo + 'static, K: KdfInfo + 'static, M: KemInfo + 'static> Suite fo
     }
 }
 
-macro_rules! by_kem {
-    ($id:expr, $A:ty, $K:ty) => {
-        match $id.kem {
-            KemId::X25519 => &S::<$A, $K, X25519HkdfSha256>(PhantomData) as &'static dyn Suite,
-            KemId::P256 => &S::<$A, $K, DhP256HkdfSha256>(PhantomData) as &'static dyn Suite,
-            KemId::P384 => &S::<$A, $K, DhP384HkdfSha384>(PhantomData) as &'static dyn Suite,
-            KemId::P521 => &S::<$A, $K, DhP521HkdfSha512>(PhantomData) as &'static dyn Suite,
+/// Registry entry for one KEM: instantiated in the per-KEM crates (dyn-x25519, dyn-p256, ...) so
+/// that the expensive monomorphisation compiles in parallel.
+#[macro_export]
+macro_rules! suites_for_kem {
+    ($M:ty) => {
+        use hpke::aead::{AesGcm128, AesGcm256, ChaCha20Poly1305, ExportOnlyAead};
+        use hpke::kdf::{HkdfSha256, HkdfSha384, HkdfSha512};
+        use hpke_dyn::shim::{ShimAes128, ShimAes256, ShimChaCha};
+        use hpke_dyn::suites::{AeadId, KdfId, Suite, S};
+        macro_rules! by_kdf {
+            ($kdf:expr, $A:ty) => {
+                match $kdf {
+                    KdfId::S256 => &S::<$A, HkdfSha256, $M>(std::marker::PhantomData) as &'static dyn Suite,
+                    KdfId::S384 => &S::<$A, HkdfSha384, $M>(std::marker::PhantomData) as &'static dyn Suite,
+                    KdfId::S512 => &S::<$A, HkdfSha512, $M>(std::marker::PhantomData) as &'static dyn Suite,
+                }
+            };
+        }
+        #[inline(never)]
+        pub fn get(kdf: KdfId, aead: AeadId, shim: bool) -> &'static dyn Suite {
+            match (aead, shim) {
+                (AeadId::Aes128, false) => by_kdf!(kdf, AesGcm128),
+                (AeadId::Aes256, false) => by_kdf!(kdf, AesGcm256),
+                (AeadId::ChaCha, false) => by_kdf!(kdf, ChaCha20Poly1305),
+                (AeadId::Export, _) => by_kdf!(kdf, ExportOnlyAead),
+                (AeadId::Aes128, true) => by_kdf!(kdf, ShimAes128),
+                (AeadId::Aes256, true) => by_kdf!(kdf, ShimAes256),
+                (AeadId::ChaCha, true) => by_kdf!(kdf, ShimChaCha),
+            }
         }
     };
-}
-macro_rules! by_kdf {
-    ($id:expr, $A:ty) => {
-        match $id.kdf {
-            KdfId::S256 => by_kem!($id, $A, HkdfSha256),
-            KdfId::S384 => by_kem!($id, $A, HkdfSha384),
-            KdfId::S512 => by_kem!($id, $A, HkdfSha512),
-        }
-    };
-}
-
-pub fn suite(id: SuiteId) -> &'static dyn Suite {
-    match (id.aead, id.shim) {
-        (AeadId::Aes128, false) => by_kdf!(id, AesGcm128),
-        (AeadId::Aes256, false) => by_kdf!(id, AesGcm256),
-        (AeadId::ChaCha, false) => by_kdf!(id, ChaCha20Poly1305),
-        (AeadId::Export, _) => by_kdf!(id, ExportOnlyAead),
-        (AeadId::Aes128, true) => by_kdf!(id, ShimAes128),
-        (AeadId::Aes256, true) => by_kdf!(id, ShimAes256),
-        (AeadId::ChaCha, true) => by_kdf!(id, ShimChaCha),
-    }
 }
